@@ -224,13 +224,15 @@ def run_model(cases):
     keys = {}
     order = []
     for c in cases:
+        if c.mop == "-":
+            continue
         k = c.model_key()
         if k not in keys:
             keys[k] = len(order)
             order.append(c.model_line())
     outs = _run_lines(MODEL_BIN, order, "model")
     parsed = [parse_model(o) for o in outs]
-    return [parsed[keys[c.model_key()]] for c in cases], len(order)
+    return [parsed[keys[c.model_key()]] if c.mop != "-" else ("SKIP",) for c in cases], len(order)
 
 
 # ----------------------------------------------------------------- comparing
@@ -266,6 +268,8 @@ def compare(case, impl, model, tol=None, scale=1, none_kinds=("NONE",)):
     """generic correspondence: definedness and values"""
     if impl[0] == "BAD":
         return "harness error: " + impl[1]
+    if model[0] == "SKIP":
+        return None
     if model[0] == "NONE":
         if impl[0] in none_kinds:
             return None
